@@ -244,6 +244,11 @@ class _Pack:
                 ret = self.run(body_of(callee.node), env2, callee, depth + 1)
                 self.reads = reads  # reads inside a helper are counted where the helper itself is analysed
                 return (None if ret is NORET else ret) if len(self.viol) == before else None
+            if isinstance(fn, ast.Name) and fn.id.startswith("_") and self.repo.has_cls(fn.id):
+                # wrapping an entry in a private helper class of the repository (`_SpillFile(d)`) does not open it:
+                # the wrapper is still the packed entry (its own methods are outside this typestate; the abstract
+                # runs of R21 / R23 / R24 decide, or fail to recognise, what they do with the file)
+                return PACKED if PACKED in tags + ktags else None
             for a, tg in zip(list(e.args) + [k.value for k in e.keywords], tags + ktags):
                 if tg == PACKED:
                     self.viol.append((f, e, f"packed buffer entry (possibly a spill-file name) passed to {U(fn)}()"))
